@@ -80,3 +80,32 @@ Definition wf_dfile_b (imp : xsymtab) (d : dfile) : bool :=
   negb (is_nil (d_pkg d)) && flat_unique_b x && forallb (fun o => is_scalar_token (snd o)) (d_fopts d)
   && forallb (wf_dext_b x (d_pkg d)) (d_exts d)
   && forallb (wf_delem_b x (d_pkg d)) (d_body d) && forallb is_dtop_b (d_body d).
+
+(* ------------------------------------------------------------------ where the model's string handling is the code's *)
+(* json_name is written with strconv.Quote and file-level string options raw between quotes; the model writes
+   both as quote ++ text ++ quote, which is what the code does for printable ASCII other than the double quote
+   (34) and the backslash (92).
+   The file correspondence evaluates this on every real descriptor as well. *)
+Definition plain_char (c : N) : bool := (32 <=? c) && (c <=? 126) && negb (c =? 34) && negb (c =? 92).
+Definition plain_text (s : list N) : bool := forallb plain_char s.
+
+Definition field_strings_plain (f : dfield) : bool := plain_text (f_json f).
+
+Fixpoint elem_strings_plain (e : delem) : bool :=
+  match e with
+  | DField f => field_strings_plain f
+  | DOneof _ _ _ _ fs => forallb field_strings_plain fs
+  | DMsg _ _ _ _ body =>
+      (fix go (l : list delem) : bool := match l with [] => true | y :: r => elem_strings_plain y && go r end) body
+  | _ => true
+  end.
+
+Definition fopt_plain (o : ident * token) : bool :=
+  match snd o with
+  | TLit (q :: r) => plain_text (removelast r)
+  | _ => true
+  end.
+
+Definition strings_plain (d : dfile) : bool :=
+  forallb fopt_plain (d_fopts d) && forallb (fun xf => field_strings_plain (snd xf)) (d_exts d)
+  && forallb elem_strings_plain (d_body d).
